@@ -510,6 +510,10 @@ fn reference_below(s: Seg, t: Seg) -> Option<bool> {
 }
 
 pub fn check_order(evs: &[Ev], tag: &str, obs: &mut Obs, bits: u64) -> Result<(), Failure> {
+    check_order_mode(evs, tag, obs, bits, false)
+}
+
+pub fn check_order_mode(evs: &[Ev], tag: &str, obs: &mut Obs, bits: u64, float_mode: bool) -> Result<(), Failure> {
     let n = evs.len();
     let fail = |clause: &str, why: String| Failure::new(clause, format!("{} events: {}", tag, why));
     let show = |e: &Ev| {
@@ -608,6 +612,14 @@ pub fn check_order(evs: &[Ev], tag: &str, obs: &mut Obs, bits: u64) -> Result<()
             if c1 != c2.reverse() {
                 return Err(fail("segments-antisymmetry", format!("compare_segments(a,b) = {:?} but (b,a) = {:?}: {} {}", c1, c2, show(lefts[i]), show(lefts[j]))));
             }
+            // Where one segment's right endpoint lies exactly on the other's line (e.g. a shared right endpoint) the
+            // code decides by a *computed* intersection point; on exact-arithmetic inputs that is reliable, for
+            // near-parallel float segments it is not (DESIGN.md §2, same root cause as K1-K4), so no claim is made there.
+            let fragile = float_mode && (orient(s.0, s.1, t.1) == 0.0 || orient(t.0, t.1, s.1) == 0.0);
+            if fragile {
+                obs.count("segment_pairs_skipped_fragile_float_configuration", 1);
+                continue;
+            }
             if let Some(below) = reference_below(s, t) {
                 obs.count("segment_pairs_with_vertical_order", 1);
                 if (c1 == Ordering::Less) != below {
@@ -689,4 +701,74 @@ pub fn check_star(st: &Star, obs: &mut Obs) -> Result<(), Failure> {
     let evs = star_events(st);
     obs.class("event-star");
     check_order(&evs, "star", obs, 0x9e3779b97f4a7c15)
+}
+
+/// the four events of two segments as fill_queue would create them (C15 on class-drawn segment pairs: T-contacts,
+/// common endpoints, collinear configurations with coordinates up to 2^25)
+pub fn check_segpair_order(d: &crate::props::segpair::SegPair, obs: &mut Obs) -> Result<(), Failure> {
+    let mk = |s: ((f64, f64), (f64, f64)), subj: bool, id: u32| -> Vec<Ev> {
+        let (a, b) = (pt(s.0 .0, s.0 .1), pt(s.1 .0, s.1 .1));
+        if a == b {
+            return vec![];
+        }
+        let e1 = SweepEvent::new_rc(id, a, false, Weak::new(), subj, true);
+        let e2 = SweepEvent::new_rc(id, b, false, Rc::downgrade(&e1), subj, true);
+        e1.set_other_event(&e2);
+        if e1 < e2 {
+            e2.set_left(true)
+        } else {
+            e1.set_left(true)
+        }
+        vec![e1, e2]
+    };
+    // same-operand collinear overlapping segments cannot come from a valid operand
+    let (s1, s2) = ((pt(d.s1.0 .0, d.s1.0 .1), pt(d.s1.1 .0, d.s1.1 .1)), (pt(d.s2.0 .0, d.s2.0 .1), pt(d.s2.1 .0, d.s2.1 .1)));
+    if s1.0 == s1.1 || s2.0 == s2.1 {
+        return Ok(());
+    }
+    if d.subj.0 == d.subj.1 && collinear_overlap(s1, s2) {
+        return Ok(());
+    }
+    let mut evs = mk(d.s1, d.subj.0, 1);
+    evs.extend(mk(d.s2, d.subj.1, 2));
+    obs.class("segment-pair-events");
+    if strictly_inside(s1, s2.0) || strictly_inside(s1, s2.1) || strictly_inside(s2, s1.0) || strictly_inside(s2, s1.1) {
+        obs.class("T-contact-pair");
+    }
+    check_order_mode(&evs, "segment pair", obs, 1, !d.integer)
+}
+
+/// float segment pairs in nearly degenerate position for the ordering predicates: a second segment that starts at
+/// (or within a few ulps of) a point of the first one, or leaves the same endpoint in almost the same direction;
+/// coordinates with full 53-bit mantissas, magnitudes up to 2^30
+pub fn near_collinear_strategy() -> proptest::strategy::BoxedStrategy<crate::props::segpair::SegPair> {
+    use crate::props::segpair::SegPair;
+    use proptest::prelude::*;
+    let coord = || prop_oneof![3 => -1000.0f64..1000.0, 1 => -1.0e9f64..1.0e9, 1 => (-(1i64 << 30)..(1i64 << 30)).prop_map(|i| i as f64)];
+    let point = move || (coord(), coord());
+    let nudge = |v: f64, u: i64| {
+        let x = f64::from_bits((v.to_bits() as i64 + u) as u64);
+        if x.is_finite() && (x - v).abs() <= v.abs() * 1e-10 + 1e-300 {
+            x
+        } else {
+            v
+        }
+    };
+    (point(), point(), point(), 0.0f64..1.0, -3i64..=3, -3i64..=3, 0u8..4, any::<bool>(), any::<bool>())
+        .prop_map(move |(a, b, c, t, u1, u2, kind, sa, sb)| {
+            // q: a point (almost) on segment a-b
+            let q = (nudge(a.0 + t * (b.0 - a.0), u1), nudge(a.1 + t * (b.1 - a.1), u2));
+            let (s1, s2) = match kind {
+                // T-like: second segment starts (almost) on the first
+                0 => ((a, b), (q, c)),
+                // same start, almost the same direction
+                1 => ((a, b), (a, q)),
+                // same end, almost the same direction
+                2 => ((a, b), (q, b)),
+                // second segment ends (almost) on the first
+                _ => ((a, b), (c, q)),
+            };
+            SegPair { s1, s2, subj: (sa, sb), in_out: (false, false), f32: false, integer: false }
+        })
+        .boxed()
 }
